@@ -19,3 +19,15 @@ claim('C12', 'other',
       'detection and agreement with another toolkit are NOT decided',
       'trusts: ast parser; convention "True = flip"; undecided clauses listed in evidence.coverage.undecided_clauses',
       'DESIGN.md 4/C12')
+claim('C13', 'other',
+      'path-sensitive typestate/effect analysis over the ast (configuration sets, callee inlining with constant '
+      'keyword contexts, witness-collection facts) + construction / ownership / restore rules',
+      'decides the protocol clause: every one of the ~35 public methods of the MoleculeContainer MRO that reach a raw '
+      'state write (98 write sites) flushes without keeping stale values, relabels, recomputes hydrogens and '
+      're-validates stereo on every normal exit; plus keep-list soundness, slot construction, copy ownership and '
+      'transaction restore completeness. It proves that no stale derived value can be served by the protocol, NOT '
+      'that freshly computed values are right (that is C01/C04/C06).',
+      'trusts: the exemption table in sa/r_protocol.py (each row one symbol + reason), access-path recognition of '
+      'raw state (self._atoms/_bonds, aliases, objects drawn from them), primitives calc_labels/calc_implicit/'
+      'fix_stereo/flush_cache taken at their documented effect',
+      'DESIGN.md 3.B, 4/C13')
